@@ -8,6 +8,8 @@ import (
 	"fmt"
 	"os"
 	"strconv"
+	"sync/atomic"
+	"time"
 	"strings"
 	"testing"
 	"testing/synctest"
@@ -144,3 +146,47 @@ func Known(id string) bool {
 	}
 	return false
 }
+
+// Lag measures how late this process's goroutines are being scheduled (a 2 ms sleeper records its
+// worst overshoot). REAL-time checks consult it before reporting a failure: a protocol-timer race
+// that the harness itself lost because the machine was starved is inconclusive, never a violation.
+type Lag struct {
+	max  atomic.Int64
+	stop chan struct{}
+	done chan struct{}
+}
+
+// StartLag starts the sleeper.
+func StartLag() *Lag {
+	l := &Lag{stop: make(chan struct{}), done: make(chan struct{})}
+	go func() {
+		defer close(l.done)
+		const period = 2 * time.Millisecond
+		for {
+			st := time.Now()
+			select {
+			case <-l.stop:
+				return
+			case <-time.After(period):
+			}
+			l.Note(time.Since(st) - period)
+		}
+	}()
+	return l
+}
+
+// Note records an overshoot observed elsewhere (e.g. a harness sleep that took too long).
+func (l *Lag) Note(over time.Duration) {
+	for {
+		cur := l.max.Load()
+		if int64(over) <= cur || l.max.CompareAndSwap(cur, int64(over)) {
+			return
+		}
+	}
+}
+
+// Max is the worst overshoot seen so far.
+func (l *Lag) Max() time.Duration { return time.Duration(l.max.Load()) }
+
+// Stop ends the sleeper.
+func (l *Lag) Stop() { close(l.stop); <-l.done }
